@@ -71,11 +71,69 @@ example : hwDecode 32 14 0x400 [⟨0, [8224]⟩, ⟨1, [32]⟩] (0x400 * 0 + 4 *
 example : nLocs 32 14 0x800 = 32 ∧ hwDecode 32 14 0x800 [⟨32, [8]⟩] (0x800 * 32) = [] ∧
     accepts 32 14 0x800 32 [⟨32, [8]⟩] = false := by decide
 
+/-- Negative witness (known finding `C14-axil-wide-bus-read-side-effects`): on an `axi-lite`/`axi` SoC with a 64-bit
+    bus the AXI-Lite 64→32 down-converter reads both halves of the bus word, so a load from the exported address of
+    simple CSR 0 also strobes simple CSR 1 ("and nothing else" fails for loads); stores are exact. -/
+example : hwDecodeWide 2 32 14 0x800 [⟨0, [32, 32]⟩] 0 = [(0, 0), (0, 1)] ∧
+    hwDecodeWide 2 32 14 0x800 [⟨0, [32, 32]⟩] 4 = [(0, 0), (0, 1)] ∧
+    hwDecodeWide 1 32 14 0x800 [⟨0, [32, 32]⟩] 4 = [(0, 1)] := by decide
+
 /-- What the build accepts satisfies the hypotheses of `export_matches_decode` for each of its banks. -/
 theorem accepts_fits (aw paging : Nat) (banks : List Bank) (h : accepts 32 aw paging 32 banks = true)
     (b : Bank) (hb : b ∈ banks) : b.page < nLocs 32 aw paging ∧ nsimple 32 b.regs ≤ paging / 4 := by
   simp only [accepts, Bool.and_eq_true, List.all_eq_true, decide_eq_true_eq] at h
   exact h.1 b hb
+
+/-- **csr8_stride_mismatch** (the exact extent of known finding `C14-csr8-stride`).  With an 8-bit CSR bus the
+    simple CSR `idx` of the bank at `page` answers at byte offset `(paging/4)·page + idx` of the CSR window (and
+    nothing else does), while every exporter publishes `paging·page + 4·idx`: the two coincide only for the very
+    first simple CSR of page 0. -/
+theorem csr8_stride_mismatch (paging aw page idx : Nat) (pre post : List Bank) (regs : List Nat)
+    (h4 : paging % 4 = 0) (hdist : ∀ b ∈ pre ++ post, b.page ≠ page)
+    (hidx : idx < paging / 4) (hn : idx < nsimple 8 regs) (hloc : page < 2 ^ aw / (paging / 4)) :
+    decodeFrom paging 8 (((paging / 4) * page + idx) % 2 ^ aw) 0 (pre ++ ⟨page, regs⟩ :: post) = [(pre.length, idx)] ∧
+    (paging * page + 4 * idx = (paging / 4) * page + idx ↔ page = 0 ∧ idx = 0) := by
+  constructor
+  · have h2 : (page + 1) * (paging / 4) ≤ 2 ^ aw :=
+      Nat.le_trans (Nat.mul_le_mul_right _ hloc) (Nat.div_mul_le_self _ _)
+    rw [Nat.add_mul, Nat.one_mul] at h2
+    have hlt : paging / 4 * page + idx < 2 ^ aw := by rw [Nat.mul_comm]; omega
+    rw [Nat.mod_eq_of_lt hlt, Nat.mul_comm]
+    exact decode_unique paging 8 page idx pre post regs hdist hidx hn
+  · have hp : paging = 4 * (paging / 4) := by omega
+    have hP : 0 < paging / 4 := by omega
+    constructor
+    · intro h
+      rw [hp, Nat.mul_assoc] at h
+      simp only [Nat.mul_div_cancel_left _ (by decide : 0 < 4)] at h
+      have ht : paging / 4 * page = 0 := by omega
+      rcases Nat.mul_eq_zero.1 ht with h0 | h0
+      · omega
+      · exact ⟨h0, by omega⟩
+    · rintro ⟨rfl, rfl⟩; simp
+
+/-- **mem_window.**  A CSR memory (width ≤ bus word, depth ≤ a page) is exported only by its window base
+    `csr_base + paging·page`; word `i` of the memory answers at `base + 4·i` (32-bit CSR bus). -/
+theorem mem_window (paging aw page depth i : Nat) (h4 : paging % 4 = 0)
+    (hi : i < depth) (hdepth : depth ≤ paging / 4) (hloc : page < nLocs 32 aw paging) :
+    memSel paging page depth (bridgeAdr 32 aw (paging * page + 4 * i)) = some i := by
+  rw [nLocs_32 aw paging h4] at hloc
+  have hlt : i < paging / 4 := by omega
+  rw [bridgeAdr_32 aw paging page i h4 hlt hloc]
+  have hP : 0 < paging / 4 := by omega
+  have h1 : (page * (paging / 4) + i) / (paging / 4) = page := by
+    rw [Nat.mul_comm, Nat.mul_add_div hP, Nat.div_eq_of_lt hlt, Nat.add_zero]
+  have h2 : (page * (paging / 4) + i) % (paging / 4) = i := by
+    rw [Nat.mul_comm, Nat.mul_add_mod, Nat.mod_eq_of_lt hlt]
+  unfold memSel
+  rw [h1, h2, if_pos rfl]
+  congr 1
+  apply Nat.mod_eq_of_lt
+  have : depth - 1 < 2 ^ (Nat.log2 (depth - 1) + 1) := Nat.lt_log2_self
+  omega
+
+/-- Non-vacuity of `mem_window`: 33-word memory at page 1, last word. -/
+example : memSel 0x800 1 33 (bridgeAdr 32 14 (0x800 * 1 + 4 * 32)) = some 32 := by decide
 
 /-! ## Generated accessors (big ordering) -/
 
@@ -188,23 +246,41 @@ example : headerAddrs 0x2000 0 0x800 32 32 [⟨3, [8]⟩] ≠ exportAddrs 0 0x80
 
 /-! ## Memory initialisation images -/
 
-/-- **mem_image_lanes.**  For every file content (bytes `< 256`), data width `32·q` and endianness: in the image
-    `get_mem_data` produces (file at the start of the memory), the byte a CPU of that endianness reads at byte
-    address `a` — word `a/(4q)`, 32-bit sub-word `(a/4) mod q` (lower address = lower sub-word), byte lane by
-    endianness — is file byte `a`, and `0` (padding) beyond the end of the file, for every address of the image. -/
-theorem mem_image_lanes (big : Bool) (q : Nat) (bytes : List Nat) (a : Nat) (hq : 0 < q)
-    (hb : ∀ b ∈ bytes, b < 256) (ha : a / (4 * q) < (memImage big q 0 bytes).length) :
-    imageByte big q (memImage big q 0 bytes) a = bytes.getD a 0 := by
-  have hlen : (memImage big q 0 bytes).length = (bytes.length + 4 * q - 1) / (4 * q) := by
-    simp [memImage]
-  rw [hlen] at ha
-  have hword : (memImage big q 0 bytes).getD (a / (4 * q)) 0 = memWord big q bytes (a / (4 * q)) := by
-    rw [List.getD_eq_getElem?_getD]
-    simp only [memImage, Nat.zero_add, Nat.zero_div, Nat.zero_le, true_and, Nat.sub_zero]
-    rw [List.getElem?_map, List.getElem?_range ha]
+/-- Length of the image: `ceil((base - offset + len)/(4q))` words. -/
+theorem memImage_length (big : Bool) (q baseOff : Nat) (bytes : List Nat) :
+    (memImage big q baseOff bytes).length = (baseOff + bytes.length + 4 * q - 1) / (4 * q) := by
+  simp [memImage]
+
+/-- **mem_image_lanes.**  For every file content (bytes `< 256`), data width `32·q`, endianness and word-aligned
+    placement `base - offset = k·4q`: in the image `get_mem_data` produces, the byte a CPU of that endianness reads
+    at byte address `k·4q + a` — word `address/(4q)`, 32-bit sub-word `(address/4) mod q` (lower address = lower
+    sub-word), byte lane by endianness — is file byte `a`, and `0` (padding) beyond the end of the file, for every
+    address of the file's words. -/
+theorem mem_image_lanes (big : Bool) (q k : Nat) (bytes : List Nat) (a : Nat) (hq : 0 < q)
+    (hb : ∀ b ∈ bytes, b < 256) (ha : a / (4 * q) < (bytes.length + 4 * q - 1) / (4 * q)) :
+    imageByte big q (memImage big q (k * (4 * q)) bytes) (k * (4 * q) + a) = bytes.getD a 0 := by
+  have hpos : 0 < 4 * q := by omega
+  have hdiv : (k * (4 * q) + a) / (4 * q) = k + a / (4 * q) := by
+    rw [Nat.mul_comm k, Nat.mul_add_div hpos]
+  have hn : (k * (4 * q) + bytes.length + 4 * q - 1) / (4 * q) = k + (bytes.length + 4 * q - 1) / (4 * q) := by
+    have : k * (4 * q) + bytes.length + 4 * q - 1 = 4 * q * k + (bytes.length + 4 * q - 1) := by
+      rw [Nat.mul_comm k]; omega
+    rw [this, Nat.mul_add_div hpos]
+  have hword : (memImage big q (k * (4 * q)) bytes).getD ((k * (4 * q) + a) / (4 * q)) 0
+      = memWord big q bytes (a / (4 * q)) := by
+    rw [List.getD_eq_getElem?_getD, hdiv]
+    simp only [memImage, Nat.mul_div_cancel _ hpos]
+    rw [List.getElem?_map, List.getElem?_range (by rw [hn]; omega)]
     simp [ha]
   unfold imageByte
   simp only [hword]
+  have hsub : (k * (4 * q) + a) / 4 % q = (a / 4) % q := by
+    have : k * (4 * q) + a = 4 * (k * q) + a := by ring
+    rw [this, Nat.mul_add_div (by decide), Nat.mul_comm k q, Nat.mul_add_mod]
+  have hlane : (k * (4 * q) + a) % 4 = a % 4 := by
+    have : k * (4 * q) + a = 4 * (k * q) + a := by ring
+    rw [this, Nat.mul_add_mod]
+  rw [hsub, hlane]
   have hs : (a / 4) % q < q := Nat.mod_lt _ hq
   rw [memWord_sub big q bytes hb _ _ hs]
   have hoff : a / (4 * q) * (4 * q) + 4 * ((a / 4) % q) = 4 * (a / 4) := by
@@ -217,13 +293,33 @@ theorem mem_image_lanes (big : Bool) (q : Nat) (bytes : List Nat) (a : Nat) (hq 
   congr 1
   omega
 
+/-- Words below the file's placement are zero. -/
+theorem mem_image_gap (big : Bool) (q k : Nat) (bytes : List Nat) (a : Nat) (hq : 0 < q) (ha : a < k * (4 * q)) :
+    imageByte big q (memImage big q (k * (4 * q)) bytes) a = 0 := by
+  have hpos : 0 < 4 * q := by omega
+  have hlt : a / (4 * q) < k := (Nat.div_lt_iff_lt_mul hpos).2 ha
+  have hword : (memImage big q (k * (4 * q)) bytes).getD (a / (4 * q)) 0 = 0 := by
+    rw [List.getD_eq_getElem?_getD]
+    simp only [memImage, Nat.mul_div_cancel _ hpos]
+    rw [List.getElem?_map]
+    cases h : (List.range ((k * (4 * q) + bytes.length + 4 * q - 1) / (4 * q)))[a / (4 * q)]? with
+    | none => simp
+    | some w =>
+      have : w = a / (4 * q) := by
+        have := List.getElem?_eq_some_iff.1 h
+        obtain ⟨_, hw⟩ := this
+        simpa using hw.symm
+      subst this
+      simp [Nat.not_le.2 hlt]
+  unfold imageByte
+  simp only [hword]
+  simp
+
 /-- The image has exactly enough words for the file (zero padding of the tail only). -/
 theorem mem_image_length (big : Bool) (q : Nat) (bytes : List Nat) (hq : 0 < q) :
     bytes.length ≤ 4 * q * (memImage big q 0 bytes).length ∧
     4 * q * (memImage big q 0 bytes).length < bytes.length + 4 * q := by
-  have hlen : (memImage big q 0 bytes).length = (bytes.length + 4 * q - 1) / (4 * q) := by
-    simp [memImage]
-  rw [hlen]
+  rw [memImage_length, Nat.zero_add]
   have hpos : 0 < 4 * q := by omega
   have h1 := Nat.div_mul_le_self (bytes.length + 4 * q - 1) (4 * q)
   have h2 := Nat.lt_mul_div_succ (bytes.length + 4 * q - 1) hpos
